@@ -306,6 +306,12 @@ def rules(ctx):
         miss = [n for ch, n in need.items() if ch not in s.channels]
         ctx.decide(o, not miss, "all five collections are written", "update_tours never writes: %s" % ", ".join(miss))
     tour_vanishes_rule(ctx)
+    from .C11 import hitch_hiking_refuses_conflicts
+    hitch_hiking_refuses_conflicts(ctx, "R4")     # displaced activities are handed back or the move is refused, also at the swap level
+    from . import formulas as _fm0
+    before = len(ctx.obligations)
+    _fm0.transition_formulas(ctx, "R7")            # the documented effect of the end-depot alignment: each vehicle ends where its successor starts
+    ctx.obligations[before:] = [o_ for o_ in ctx.obligations[before:] if "get_successor_of" in o_.id]
     from .C12 import none_means_all_reachable
     before = len(ctx.obligations)
     none_means_all_reachable(ctx)      # what override/fit displace is decided by these two searches
